@@ -68,20 +68,30 @@ def gen_graph_model(rng, profile="mixed", max_types=4, max_rels=4, depth=2, wild
             return [1, 1]
         return [3, S(tsr), S(rng.choice(RELS))]
 
-    def tree(t, r, d):
+    def tree(t, r, d, budget):
+        """budget: a one-element list, the number of direct assignments still allowed in this relation (DSL: at most one)"""
         if d <= 0 or rng.random() < 0.45:
-            return leaf(t, r, True)
+            x = leaf(t, r, budget[0] > 0)
+            if x == [1, 1]:
+                if budget[0] <= 0:
+                    lower = [r2 for r2 in rels[t] if rank[(t, r2)] < rank[(t, r)]]
+                    if profile != "acyclic" and rng.random() < 0.5:
+                        return [2, S(rng.choice(rels[t]))]
+                    return [2, S(rng.choice(lower))] if lower else [2, S(rng.choice(rels[t]))]
+                budget[0] -= 1
+            return x
         op = rng.choice([4, 4, 5, 6])
         if op == 6:
-            return [6, tree(t, r, d - 1), tree(t, r, d - 1)]
-        return [op] + [tree(t, r, d - 1) for _ in range(rng.choice([2, 2, 3]))]
+            return [6, tree(t, r, d - 1, budget), tree(t, r, d - 1, budget)]
+        return [op] + [tree(t, r, d - 1, budget) for _ in range(rng.choice([2, 2, 3]))]
 
     types = []
     for t in tnames:
         rl = []
         ml = []
         for r in rels[t]:
-            u = tree(t, r, rng.randint(0, depth))
+            lowest = min(rels[t], key=lambda x: rank[(t, x)])
+            u = [1, 1] if r == lowest else tree(t, r, rng.randint(0, depth), [1])
             rl.append([S(r), u])
             # the tupleset relations must keep their restrictions; others only if they have a direct assignment
             ml.append([S(r), [directs[(t, r)], [], []]])
@@ -157,3 +167,10 @@ def same_result(a, b):
     if a[0] == "err":
         return a[1] == b[1]
     return True
+
+
+def same_verdict(a, b):
+    """C06 compares the verdict (accepted / rejected) and, when accepted, the graphs; not the error class"""
+    if a[0] != b[0]:
+        return False
+    return graphs_equal(a[1], b[1]) if a[0] == "ok" else True
